@@ -982,6 +982,57 @@ def crash_site(exe, d, scn_text, stderr, env):
     return m.group(1) if m else "unknown-site"
 
 
+# ---- the keywords that the init() of every real block kind looks up, recorded from the binary of this run
+_CVX = "colvar {\n  name x\n  distanceZ {\n    main {\n      atomNumbers 1\n    }\n    ref {\n      dummyAtom (0,0,0)\n    }\n    axis (0,0,1)\n  }\n}\n"
+_GRP = "group1 {\n  atomNumbers 1 2\n}\ngroup2 {\n  atomNumbers 3 4\n}\n"
+RECORD = [
+    ("global", "", "colvarsTrajFrequency 5\n"),
+    ("colvar", "", "name x\nwidth 0.5\ndistanceZ {\n  main {\n    atomNumbers 1\n  }\n  ref {\n    dummyAtom (0,0,0)\n  }\n}\n"),
+    ("cvc:distance", "", _GRP),
+    ("cvc:distancez", "", "main {\n  atomNumbers 1\n}\nref {\n  dummyAtom (0,0,0)\n}\naxis (0,0,1)\n"),
+    ("cvc:distancevec", "", _GRP),
+    ("group", "", "atomNumbers 1 2\n"),
+    ("bias:harmonic", _CVX, "colvars x\ncenters 0.5\nforceConstant 2.0\n"),
+    ("bias:harmonicwalls", _CVX, "colvars x\nlowerWalls 0.5\nupperWalls 1.5\nforceConstant 2.0\n"),
+    ("bias:linear", _CVX, "colvars x\ncenters 0.5\nforceConstant 2.0\n"),
+    ("bias:histogram", _CVX.replace("  distanceZ", "  lowerBoundary 0.0\n  upperBoundary 4.0\n  width 0.5\n  distanceZ"), "colvars x\n"),
+    ("bias:metadynamics", _CVX.replace("  distanceZ", "  lowerBoundary 0.0\n  upperBoundary 4.0\n  width 0.5\n  distanceZ"), "colvars x\nhillWeight 0.01\nhillWidth 1.0\n"),
+    ("bias:abf", _CVX.replace("  distanceZ", "  lowerBoundary 0.0\n  upperBoundary 4.0\n  width 0.5\n  distanceZ"), "colvars x\nfullSamples 10\n"),
+]
+
+
+def record_keywords(unit):
+    """{kind: sorted list of keywords (bytes)} looked up by init() of the real objects"""
+    lines = ["HK %s %s %s" % (k, G.hx(pre), G.hx(conf)) for k, pre, conf in RECORD]
+    rc, o, e = V.run_lines(unit, lines, cwd=V.scratch("C09rec"), timeout=300)
+    tbl = {}
+    for (k, _, _), l in zip(RECORD, o):
+        w = l.split()
+        if w and w[0] in ("init-ok", "init-error"):
+            tbl[k] = sorted(set(G.unhx(x) for x in w[1:]))
+    return tbl
+
+
+def write_gen(tbl):
+    os.makedirs(os.path.join(V.COQ, "Gen"), exist_ok=True)
+    def lst(b):
+        return "[" + "; ".join(str(c) for c in b) + "]"
+    body = ("(* GENERATED by props/C09/check.py: for every kind of real object, the keywords its init() looks up, recorded from the\n"
+            "   freshly built binary (allowed_keywords after init(), before check_keywords); do not edit *)\n"
+            "From Coq Require Import ZArith List. Import ListNotations. Local Open Scope Z_scope.\n"
+            "Definition real_keywords : list (list Z * list (list Z)) := [\n  "
+            + ";\n  ".join("(%s (* %s *),\n   [%s])" % (lst(k.encode()), k, ";\n    ".join(lst(kw) for kw in kws)) for k, kws in sorted(tbl.items()))
+            + "].\n")
+    p = os.path.join(V.COQ, "Gen", "GenC09Keywords.v")
+    if not os.path.exists(p) or open(p).read() != body:
+        open(p, "w").write(body)
+
+
+def presetup():
+    unit = V.build_prog("c09unit", UNIT["c09unit"])
+    write_gen(record_keywords(unit))
+
+
 def setup():
     V.extract_model("C09", EXTRACT, DRIVER, [])
     V.build_prog("c09unit", UNIT["c09unit"])
@@ -1002,6 +1053,14 @@ def check(run):
         "keywords are program constants: theorems about key_lookup assume a non-empty keyword without LF, blank, tab or '}' (good_key); the tie uses such keywords only",
         "crash- and hang-freedom of the C++ parser is explored (timeouts, ASan/UBSan build in the thorough tier), not proved",
     ]
+    # the keyword table of the real blocks is regenerated from the binary before the theorems about it are checked
+    try:
+        presetup()
+    except V.InfraError as ex:
+        if "compilation of /repo failed" in str(ex):
+            raise
+        run.violation("tie:harness-build", "the harness no longer builds against the tree: %s" % str(ex)[-800:], {"kind": "harness-build"}, found_input=False)
+        return
     st = V.standard_start(run, PROP, EXTRACT, DRIVER, UNIT, extra_ml=())
     if st is None:
         return
@@ -1162,6 +1221,47 @@ def check(run):
             run.mismatch("unit:key_lookup", c, io, mo)
     run.cov["correspondence"]["unit_cases"] = len(lines)
     run.cov["correspondence"]["corpus_cases"] = ncorpus
+
+    # ------------------------------------------------------------ 1b. every real block: check_keywords accepts exactly
+    # the keywords its init() looked up (table recorded from the binary, also the subject of GenC09_real_blocks_keywords)
+    tbl = record_keywords(unit)
+    allk = set(k for ks in tbl.values() for k in ks)
+    hc, hmeta = [], []
+    for kind, pre, conf in RECORD:
+        ks = tbl.get(kind, [])
+        if not ks:
+            run.mismatch("module:recorded-keywords", {"kind": kind}, "none", "some")
+            continue
+        acc = ks if not quick else r.sample(ks, min(8, len(ks)))
+        rej = []
+        for _ in range(len(ks) * 2 if not quick else 12):
+            src = r.choice(ks)
+            ms = G.misspell(r, src, set(ks)) if r.random() < 0.7 else None
+            wd = ms[1] if ms else r.choice(sorted(allk - set(ks)) or [b"foobar"])
+            if wd.lower() not in ks:
+                rej.append((wd, ms[0] if ms else "other-block"))
+        for wd in acc:
+            hc.append("HC %s %s %s %s" % (kind, G.hx(pre), G.hx(conf), G.hx(G.rcase(r, wd))))
+            hmeta.append((kind, wd, True, "recorded"))
+        for wd, fam in rej:
+            hc.append("HC %s %s %s %s" % (kind, G.hx(pre), G.hx(conf), G.hx(wd)))
+            hmeta.append((kind, wd, False, fam))
+    rch, hio, _ = V.run_lines(unit, hc, cwd=V.scratch("C09hc"), timeout=600)
+    _, hmo, _ = V.run_lines(model, ["CW %s %s" % (",".join(G.hx(k) for k in tbl[kd]), c.split()[4]) for (kd, _, _, _), c in zip(hmeta, hc)])
+    if len(hio) != len(hc):
+        run.violation("crash:unit", "the unit driver died while running check_keywords of a real %s block" % (hmeta[len(hio)][0] if len(hio) < len(hmeta) else "?"),
+                      {"kind": "unit", "case": hc[len(hio)] if len(hio) < len(hc) else None})
+    for (kd, wd, want, fam), c, io_, mo_ in zip(hmeta, hc, hio, hmo):
+        run.count(c, True)
+        run.dist("block:%s:%s" % (kd, "recorded" if want else fam))
+        if (io_ == "accept") != want:
+            run.violation("strict:block:%s" % ("looked-up-keyword-refused" if want else "keyword-%s-accepted" % fam),
+                          "check_keywords of a real %s block %s the word %r (%s); its init() looks up %d keywords" % (
+                              kd, "refuses" if want else "accepts", wd, "one of them" if want else fam + ", not one of them", len(tbl[kd])),
+                          {"kind": "unit", "case": c, "impl": io_, "model": mo_})
+        if io_ != mo_:
+            run.mismatch("strict:block", c, io_, mo_)
+    run.cov["correspondence"]["recorded_keywords"] = {k: len(v) for k, v in sorted(tbl.items())}
 
     # ------------------------------------------------------------ 2. whole module: mutants and layout rewrites
     d = V.scratch("C09")
